@@ -39,7 +39,12 @@ Spec == Init /\ [][Next]_vars
 CoveredGrows      == l > 0 => CoveredGrowsP(Pre, Post, cur.op = "reset")
 ArchivedCovers    == l > 0 => ArchivedCoversP(Post)
 \* ("recheck": the archived tests were re-executed; only ArchivedCovers is about that view)
-ReplaceRule       == (l > 0 /\ cur.op # "recheck") => ReplaceRuleP(Pre, Post, cur.sols)
+\* every recorded assignment archive[g] := s of the call is a legal replacement, and whatever
+\* else differs afterwards is explained by legal replacements with the offered solutions
+Steps == [i \in DOMAIN cur.steps |-> [g |-> cur.steps[i].g, sol |-> SolV(cur.steps[i].sol)]]
+ReplaceRule       == (l > 0 /\ cur.op # "recheck") =>
+                        /\ StepsOK(Pre.cov, Steps)
+                        /\ ReplaceRuleP([Pre EXCEPT !.cov = StepsFinal(Pre.cov, Steps)], Post, cur.sols)
 MIOCap            == l > 0 => MIOCapP(Post)
 MIOCoveredOne     == l > 0 => (MIOCoveredOneP(Post) /\ MIOStaysP(Pre, Post))
 CoveredConsistent == l > 0 => CoveredConsistentP(Post)
